@@ -59,16 +59,17 @@ structure Cfg where
   insertCopiesOwn : Bool     -- F79: inserting an element of a list into that list copies it
   notifyBulk : Bool          -- 6daab50: clear / popitem / sort / reverse deliver change notifications
   scopePartial : Option Bool := none  -- ambient: the call runs inside `with pg.allow_partial(b)`
+  sliceAtTarget : Bool := false       -- F225: a slice assignment formalizes each value for the position it is stored at
   deriving DecidableEq, Repr
 
-def Cfg.pinned : Cfg := ⟨false, false, false, false, false, false, none⟩
-def Cfg.patched : Cfg := ⟨true, true, true, true, true, true, none⟩
+def Cfg.pinned : Cfg := ⟨false, false, false, false, false, false, none, false⟩
+def Cfg.patched : Cfg := ⟨true, true, true, true, true, true, none, false⟩
 
 /-- every configuration that has the four fixes the *belief* invariant depends on (F02, F03, F78,
 F79); the clone flag fix (F17), the bulk notifications and the ambient `allow_partial` scope are
-free. `Cfg.patched = Cfg.fixedWith true true none`. -/
-def Cfg.fixedWith (listCloneSealed notifyBulk : Bool) (scope : Option Bool) : Cfg :=
-  ⟨true, true, listCloneSealed, true, true, notifyBulk, scope⟩
+free, and so is the slice fix (F225). `Cfg.patched = Cfg.fixedWith true true none false`. -/
+def Cfg.fixedWith (listCloneSealed notifyBulk : Bool) (scope : Option Bool) (sliceAtTarget : Bool) : Cfg :=
+  ⟨true, true, listCloneSealed, true, true, notifyBulk, scope, sliceAtTarget⟩
 
 /-- The object classes: 0 and 1 are the test classes of the harness (fields `k0 k1` / `k0 k1 k2`,
 all `Any`, default None, `allow_symbolic_assignment = True`); 2 is `pg.Ref`, 3 is
